@@ -859,6 +859,42 @@ USES = {'CHText.__getitem__/index/any_length': ['CHText._get_chunk_pos/any_lengt
         'CHText.__radd__/any_length': ['CHText.__init__/any_length'],
         'CHText.join/any_length': _IADD_ANY + ['CHText.__init__/any_length']}
 ASSUMED_LIBRARY = []
+def _wf_chunks_sample(rng, first_id=1):
+    cols = ['', '\x1b[31m', '\x1b[1;32m', '\x1b[38;5;12m']
+    out, prev = [], None
+    for i in range(rng.choice([0, 1, 2, 3, 5])):
+        c = rng.choice([x for x in cols if x != prev])
+        prev = c
+        out.append({'__class__': 'ak.color:_CHTextChunk', '__id__': first_id + i,
+                    'fields': {'c_prefix': c, 'text': rng.choice(['a', 'bc', ' ', 'xyz', 'é']), 'c_suffix': '' if c == '' else '\x1b[0m'}})
+    return out
+
+
+def _same_picture_sample(rng):
+    """two well-formed lists showing the same picture (by canonical form: the same chunks), mostly; sometimes a variant
+    that differs in one text or colour (the pre-condition then fails and the sample is skipped)"""
+    a = _wf_chunks_sample(rng, 1)
+    b = json.loads(json.dumps(a))
+    for i, c in enumerate(b):
+        c['__id__'] = 100 + i
+    if b and rng.random() < 0.2:
+        b[rng.randrange(len(b))]['fields']['text'] += 'q'
+    return {'a': a, 'b': b}
+
+
+def _pointwise_sample(rng):
+    d = _same_picture_sample(rng)
+    d['q'] = rng.randint(-2, 12)
+    return d
+
+
+import json       # noqa
+for _c in CONTRACTS:
+    if _c.name == 'lemma_canonical/any_length':
+        _c.sampler = _same_picture_sample
+    if _c.name == 'lemma_pointwise/any_length':
+        _c.sampler = _pointwise_sample
+
 NATIVE_SAMPLING = {'select': 'any_length', 'n': 150}
 CANARIES = [
     {'name': 'anylen_eq_ignores_colour', 'module': M, 'function': 'CHText.__eq__', 'verify': 'CHText.__eq__/text/any_length',
